@@ -361,6 +361,7 @@ type ztReplay struct {
 	Kind    string       `json:"kind"`
 	C03     *z3Scenario  `json:"c03,omitempty"`
 	C12     *z12Scenario `json:"c12,omitempty"`
+	C09P    *z9pScenario `json:"c09p,omitempty"`
 	Choices string       `json:"choices"`
 	Bounds  mcrt.Bounds  `json:"bounds"`
 	Total   int          `json:"total_cap"`
@@ -380,16 +381,16 @@ func ztReplayFile(p, prop string) {
 		fmt.Println("replay:", err)
 		gos.Exit(2)
 	}
-	var body func()
 	if rp.Kind == "c03" {
-		body = z3Body(*rp.C03)
-		js, _ := json.Marshal(rp.C03)
-		fmt.Printf("scenario %s\n", js)
+		ztReplayBody(rp, z3Body(*rp.C03), rp.C03, prop)
 	} else {
-		body = z12Body(*rp.C12)
-		js, _ := json.Marshal(rp.C12)
-		fmt.Printf("scenario %s\n", js)
+		ztReplayBody(rp, z12Body(*rp.C12), rp.C12, prop)
 	}
+}
+
+func ztReplayBody(rp ztReplay, body func(), scv any, prop string) {
+	js, _ := json.Marshal(scv)
+	fmt.Printf("scenario %s\n", js)
 	x := &mcrt.Explorer{Bounds: rp.Bounds, TotalCap: rp.Total, Body: body, Cfg: mcrt.Config{MaxSteps: 30000}, NoCache: true}
 	res, labels := x.Replay(mcrt.DecodeChoices(rp.Choices))
 	ztCleanupProcess()
@@ -443,10 +444,23 @@ func ztExplore(r *evid.Run, prop string, names []string, mk func(name string) (f
 				}
 			}
 			for _, p := range res.Panics {
+				if prop == "C09" {
+					// the push clause of C09 is about ordering; a panic on the push path is C15's subject
+					// (scenarios push-gone, push|push there). Here the execution is cut, counted and not judged.
+					sub.Add("panics_observed_not_judged", 1)
+					sub.NotExhaustive("an execution of " + name + " ended in a panic of the code under test (judged by C15)")
+					return
+				}
 				fails = append(fails, prop+": panic in "+p.Thread+": "+strings.SplitN(p.Value, "\n", 2)[0])
 			}
 			if res.Horizon {
-				fails = append(fails, prop+": no-termination: the operation did not finish within the step horizon")
+				if prop == "C09" {
+					// the property's push clause is about ordering, not termination: counted, not judged
+					sub.Add("horizon_hits", 1)
+					sub.NotExhaustive("step horizon reached in " + name + " (execution cut, not judged)")
+				} else {
+					fails = append(fails, prop+": no-termination: the operation did not finish within the step horizon")
+				}
 			}
 			if len(fails) == 0 {
 				return
@@ -572,6 +586,8 @@ func ZZVerifStore() {
 		ZZVerifC04()
 	case "C15":
 		ZZVerifC15()
+	case "C09":
+		ZZVerifC09Push()
 	default:
 		ZZVerifC03()
 	}
